@@ -84,9 +84,24 @@ func RunReplaySharded(t *testing.T, ad graph.Adapter, root sdk.Context, shardKey
 	}
 	// every executed real transition is also recorded as a one-step behaviour (initial state = the projected
 	// pre-state), so that TLC evaluates the property formulas on conforming transitions too
+	// the recorded behaviour is the path of accepted operations from the initial state (breadth-first tree of
+	// the graph; its states were confirmed when the walk descended) followed by the executed step, so that a
+	// saved violation can be re-executed from genesis with --replay.
+	pathTo := map[string][]graph.Step{g.Init: {}}
+	for queue := []string{g.Init}; len(queue) > 0; queue = queue[1:] {
+		for _, e := range g.Out[queue[0]] {
+			if _, seen := pathTo[e.To]; e.Op.Res() != "ok" || seen {
+				continue
+			}
+			pathTo[e.To] = append(append([]graph.Step{}, pathTo[queue[0]]...), graph.Step{Op: e.Op, St: json.RawMessage(e.To)})
+			queue = append(queue, e.To)
+		}
+	}
 	capN, nrec := envInt("VERIF_EDGETRACES", 6000), 0
 	var lastMS uintptr
 	var lastPre any
+	var lastPath []graph.Step
+	var lastKnown bool
 	after := func(post, pre sdk.Context, op graph.Op, res string) error {
 		if out == nil || nrec >= capN {
 			return nil
@@ -94,13 +109,18 @@ func RunReplaySharded(t *testing.T, ad graph.Adapter, root sdk.Context, shardKey
 		nrec++
 		if id := storeIdentity(pre); id == 0 || id != lastMS { // all operations of a state start from the same branch
 			lastMS, lastPre = id, ad.Project(pre)
+			lastPath, lastKnown = pathTo[graph.CanonV(lastPre)]
 		}
 		o := graph.Op{}
 		for k, v := range op {
 			o[k] = v
 		}
 		o["res"] = res
-		b, _ := json.Marshal(map[string]any{"init": lastPre, "trace": []graph.Step{{Op: o, St: ad.Project(post)}}, "why": ""})
+		doc := map[string]any{"trace": append(append([]graph.Step{}, lastPath...), graph.Step{Op: o, St: ad.Project(post)}), "why": ""}
+		if !lastKnown {
+			doc["init"] = lastPre
+		}
+		b, _ := json.Marshal(doc)
 		out.Write(append(b, '\n'))
 		return nil
 	}
